@@ -334,12 +334,30 @@ def colour_slots(ctx, R, rule_id="C09.COLOUR"):
     g, doc, r = _tex(pt2, "add_labels")
     anyb = any("borderColor" in flat(x)[0] for x in doc)
     R.check(not anyb, rule_id, "no border colour without showBorder", where(g), "borderColor is used only with showBorder", "TikZ labels use borderColor although showBorder is off (the colour is not defined then)")
-    # the colour accessors
+    # the colour accessors: evaluated down to the colour resolver (a function called colorFunc, wherever the class layout
+    # puts it), each must hand over its own option name, the datum and the index
     for k in KINDS:
         m = P.func("timeline.Timeline.%sColor" % k)
-        cs = [c for c in calls_in(m.node) if isinstance(c.func, ast.Attribute) and c.func.attr == "colorFunc"]
-        ok = len(cs) == 1 and cs[0].args and const_value(cs[0].args[0]) == "%sColor" % k and len(cs[0].args) >= 2 and ntext(cs[0].args[1]) == m.params[1] and any(kw.arg == "i" and ntext(kw.value) == m.params[2] for kw in cs[0].keywords) or (len(cs) == 1 and len(cs[0].args) == 3 and const_value(cs[0].args[0]) == "%sColor" % k and ntext(cs[0].args[2]) == m.params[2])
-        R.check(ok, rule_id, "accessor %sColor" % k, where(m), "%sColor(d, i) = colorFunc('%sColor', d, i=i)" % (k, k), "%sColor does not forward (its own option name, the datum, the index) to colorFunc" % k, nontrivial=False)
+        got = []
+
+        def hook(fv, args, kwargs, node, st_):
+            if isinstance(fv, Closure) and fv.func.name == "colorFunc" and fv.func.module.name == "timeline" and not got:
+                b = dict(zip(fv.func.params[1:] if fv.func.cls is not None else fv.func.params, args))
+                b.update(kwargs)
+                pn = fv.func.params[1:] if fv.func.cls is not None else fv.func.params
+                got.append([key(b[x]) if x in b else None for x in pn[:3]])
+                if fv.func.qual == "timeline.Timeline.colorFunc":
+                    return None  # may itself forward to the resolver proper: keep the first call seen, go on
+                return Opaque("COLOR")
+            return None
+
+        ev = new_eval(P, on_call=hook)
+        st = ev.new_state(m)
+        sv = Opaque("self", cls=P.cls("timeline.Timeline"), kind="obj")
+        st.heap[("self", "options")] = Opaque("OPTIONS", kind="obj")
+        ev.call_closure(Closure(m, None, selfv=sv), [Opaque("D"), Opaque("I")], {}, st)
+        ok = bool(got) and got[0] == ["'%sColor'" % k, "D", "I"]
+        R.check(ok, rule_id, "accessor %sColor" % k, where(m), "%sColor(d, i) = colorFunc('%sColor', d, i=i)" % (k, k), "%sColor does not forward (its own option name, the datum, the index) to colorFunc: %s" % (k, got[0] if got else "no call"), nontrivial=False)
 
 
 @rule("C09.COLOUR")
@@ -421,7 +439,17 @@ def link(ctx, R):
     # both consume renderer.generatePath(node)
     for backend, tikz in ((SVG, False), (TEX, True)):
         f = P.method(P.cls(backend), "add_links")
-        cs = [c for c in calls_in(f.node) if isinstance(c.func, ast.Attribute) and c.func.attr == "generatePath"]
+        # in add_links itself or in a method of the class it calls on self (a compute step split off the emit step)
+        scope, todo = [f], [f]
+        while todo:
+            g_ = todo.pop()
+            for c in calls_in(g_.node):
+                if isinstance(c.func, ast.Attribute) and isinstance(c.func.value, ast.Name) and g_.params and c.func.value.id == g_.params[0]:
+                    h_ = P.method(P.cls(backend), c.func.attr)
+                    if h_ is not None and h_ not in scope and not h_.name.startswith("add_") and len(scope) < 6:
+                        scope.append(h_)
+                        todo.append(h_)
+        cs = [c for g_ in scope for c in calls_in(g_.node) if isinstance(c.func, ast.Attribute) and c.func.attr == "generatePath"]
         ok = len(cs) == 1 and ntext(cs[0].func.value) == "self.renderer" and cs[0].args and isinstance(cs[0].args[0], ast.Name)
         if ok and tikz:
             ok = any(k.arg == "tikz" and const_value(k.value) is True for k in cs[0].keywords) or (len(cs[0].args) > 1 and const_value(cs[0].args[1]) is True)
